@@ -40,6 +40,7 @@ or when one worker handles multiple tasks / one task needs multiple workers
 
 from collections.abc import Sequence
 
+from solvor import _verif
 from solvor.types import Result
 
 __all__ = ["solve_hungarian"]
@@ -77,6 +78,8 @@ def solve_hungarian(
     augment_path = [0] * (n + 1)
 
     iterations = 0
+    if _verif.ENABLED:  # pragma: no cover
+        _verif.emit("hungarian_init", n=n, matrix=[list(row) for row in matrix])
 
     for i in range(1, n + 1):
         col_match[0] = i
@@ -114,6 +117,9 @@ def solve_hungarian(
             prev_col = augment_path[current_col]
             col_match[current_col] = col_match[prev_col]
             current_col = prev_col
+
+        if _verif.ENABLED:  # pragma: no cover
+            _verif.emit("hungarian_stage", row=i, u=list(row_potential), v=list(col_potential), match=list(col_match))
 
     assignment = [-1] * n_rows
     for j in range(1, n + 1):
